@@ -591,8 +591,10 @@ def _install():
         lambda rng, cx: {"phase": rng.random() < .4, "main": rng.choice(["freq", "freq", "phase"])},
         b_sin, lambda p: {"m": "cascade", "n": 3},
         aux=lambda p: [A("freq")] if p.get("main") == "phase" else ([A("phase")] if p["phase"] else []))
-    reg("TableLookup.__call__", "s", "s", lambda rng, cx: {"phase": rng.random() < .5},
-        lambda s, p, c: al.sin_table(Stream(s) * .01, phase=(Stream(c.get("phase")) * .1) if p.get("phase") else 0.),
+    TABLES = {"sin": lambda: al.sin_table, "saw": lambda: al.saw_table, "own": lambda: al.TableLookup([0., 1., 0., -1.], cycles=1),
+              "harm": lambda: al.sin_table.harmonize({1: 1., 2: .5}).normalize()}
+    reg("TableLookup.__call__", "s", "s", lambda rng, cx: {"phase": rng.random() < .5, "table": rng.choice(sorted(TABLES))},
+        lambda s, p, c: TABLES[p.get("table", "sin")]()(Stream(s) * .01, phase=(Stream(c.get("phase")) * .1) if p.get("phase") else 0.),
         lambda p: {"m": "cascade", "n": 4}, aux=lambda p: [A("phase")] if p.get("phase") else [])
 
     # --- envelopes with an iterable argument -------------------------------------------------------------
@@ -1310,7 +1312,8 @@ DRAIN_OK = {"Stream", "Stream.map", "imap", "Stream.__call__", "takewhile", "Str
             "Stream(a,b)", "Stream.copy", "tee", "islice", "op.scalar", "op.unary", "Stream.real", "thub",
             "ZFilter.__call__", "CascadeFilter", "ParallelFilter", "accumulate.z", "accumulate.itertools",
             "maverage.deque", "maverage.recursive", "maverage.fir", "envelope.abs", "envelope.squared", "amdf",
-            "clip", "zcross", "blocks", "zero_pad", "overlap_add.list", "stft", "Poly.__call__", "gammatone"}
+            "clip", "zcross", "blocks", "zero_pad", "overlap_add.list", "stft", "Poly.__call__", "gammatone",
+            "attack", "pairwise", "starmap", "groupby", "batched", "chunks.struct", "chunks.array"}
 
 
 def _drainable(chain):
@@ -1500,6 +1503,22 @@ def _run_reads(c):
                 a[3].append(v)
     except StopIteration:
         obs["ended"] = True
+        if mode == "drain":
+            # asked PAST the end, twice: a finished stage raises StopIteration again and reads nothing
+            before = counts()
+            post = []
+            for _ in range(2):
+                try:
+                    next(itr)
+                    post.append("output")
+                except StopIteration:
+                    post.append("stop")
+                except CaseTimeout:
+                    raise
+                except Exception as e:
+                    post.append(err_kind(e))
+            obs["post"] = post
+            obs["post_reads"] = [b - a for a, b in zip(before, counts())]
     except CaseTimeout:
         raise
     except Exception as e:  # TripWire, RuntimeError, ...
@@ -1710,6 +1729,12 @@ def _diff(c, io, drv, which):
             j = next(k for k in range(len(got)) if k >= len(exp) or got[k] != exp[k])
             out.append("stage %d (%s): auxiliary source `%s` (rule %s) pulls after next #%d: impl=%d %s=%s" % (
                 i, c["chain"][i]["st"], name, rule, j + 1, got[j], which, exp[j] if j < len(exp) else "none"))
+    if drain and which == "model" and "post" in io:
+        # Props.asked_past_the_end: after the first StopIteration every request fails, the counters stay
+        if io["post"] != ["stop", "stop"]:
+            out.append("asked twice past the end: %r instead of StopIteration twice" % (io["post"],))
+        if any(io["post_reads"]):
+            out.append("asked twice past the end: %r more items pulled (taps)" % (io["post_reads"],))
     if io.get("tripped"):
         out.append("trip-wire touched")
     if io.get("aux_tripped"):
@@ -1871,6 +1896,8 @@ def tally(eng, c, io):
             eng.count("resample.tv_pattern_len", max(len(p[n]) for n in ("old", "new") if isinstance(p[n], list)))
     if "err" in io:
         eng.count("impl_error", io["err"])
+    if "post" in io:
+        eng.count("drained_then_asked_twice", "/".join(io["post"]))
     if io.get("levels") and io["levels"][0]:
         last = io["levels"][0][-1]
         eng.count("source_vs_outputs", "pulls<k" if last < io["outs"] else ("pulls=k" if last == io["outs"] else "pulls>k"))
@@ -2076,6 +2103,9 @@ def classify(c, io, drv):
         return c["entry"] + ":" + ("err:" + io["err"] if "err" in io else "over-read")
     names = [el["st"] for el in c["chain"]]
     if "err" in io:
+        if io["err"] == "RuntimeError" and "attack" in names and c["mode"] == "drain" and c["n"] == 0 and \
+                "StopIteration" in io.get("errmsg", ""):
+            return "attack:empty-sustain:err:RuntimeError"
         if io.get("aux_tripped"):
             own = [a[0] for a in io.get("aux", []) if a[2] in io["aux_tripped"]]
             return "%s:aux-%s:over-read" % (names[own[0]] if own else names[0], io["aux_tripped"][0])
